@@ -559,4 +559,20 @@ def lEng0 (p : LParams) (plan : List PlanItem) : LEng :=
 /-- what the driver prints of a digesting engine -/
 def lView (s : LEng) : LParams × MView × Dig := (s.p, s.mv, s.dg)
 
+/-! ## Execution links for a subset of the exchanges (`tracked t x`)
+
+`ExecutionBuilder::build` (`execution/builder.rs:202-216`) gives the engine a `MultiExchangeTxMap` entry
+for EVERY exchange of the indexed instruments, `None` for those without an `ExecutionConfig`:
+instruments of such an exchange are tracked (their market data is part of the dataset and is fed to the
+engine like any other) but not traded. In the model the execution side is the abstract `Exchange`; an
+execution side with links for some requests only never answers the others. The market forwarder
+(`stepFwdMarket`) does not look at the execution side at all - `Props/C20.lean`,
+`market_view_independent_of_execution_links`. -/
+
+/-- The execution side `X` restricted to the requests `linked` accepts (those addressed to an exchange
+with an execution link); any other request is never answered. `linked := fun _ => false` is a backtest
+with an empty `executions` list. -/
+def linkedExchange {χ ρ α : Type} (X : Exchange χ ρ α) (linked : ρ → Bool) : Exchange χ ρ α :=
+  { respond := fun x r => if linked r then X.respond x r else (x, []) }
+
 end BarterModel.Backtest
